@@ -28,6 +28,8 @@ func checkC04(p *Prog, r *Report) {
 	// "this input's monthly correction": nothing read from a run's weather folder may be kept in the session
 	// across runs except through the path-keyed file pool (shared with C03.R2b / C11.R5)
 	c03Session(p, r, p.SSA(), "C04.R11")
+	inputHelpers(p, r, "C04.R12")
+	yearExtensionRule(p, r, "C04.R13")
 }
 
 // ---------------------------------------------------------------- R1 weather errors propagate
